@@ -64,9 +64,38 @@ def steps(lines):
         elif re.match(r"hand \d+ \d+$", l):
             cur = {"kind": "hand", "lines": [l]}
             st.append(cur)
+        elif re.match(r"xmlhand \d+$", l):
+            cur = {"kind": "xml", "lines": [l]}
+            st.append(cur)
         elif cur is not None:
             cur["lines"].append(l)
     return st
+
+
+REFNAME = 'ref<&"1>.xml'
+
+
+def xml_ok(line, n):
+    """the XML round-trip clause on one 'xml ...' line of the harness: export succeeds, the returned length is
+    strlen+1, the loaded list and refname are the exported ones, the file variant holds the same bytes as the
+    buffer (without the NUL) and loads to the same list"""
+    if line is None:
+        return "XML export/load did not return"
+    f = kv(line)
+    ref = G.hx(REFNAME)
+    if f.get("export") != "0":
+        return "export_xmlbuffer failed"
+    bad = []
+    if f.get("len") != f.get("strlen"):
+        bad.append("returned buflen %s but strlen(buffer)+1 = %s" % (f.get("len"), f.get("strlen")))
+    if f.get("load") != "0" or f.get("same") != "1" or f.get("n") != str(n) or f.get("ref") != ref:
+        bad.append("load_xmlbuffer of the exported buffer: rc=%s same=%s n=%s (want %d) refname %s" % (
+            f.get("load"), f.get("same"), f.get("n"), n, "ok" if f.get("ref") == ref else "differs"))
+    if f.get("fexport") != "0" or f.get("fsame") != "1":
+        bad.append("export_xml to a file: rc=%s, %s bytes, same bytes as the buffer variant=%s" % (f.get("fexport"), f.get("fsize"), f.get("fsame")))
+    if f.get("fload") != "0" or f.get("fsamelist") != "1" or f.get("fref") != ref:
+        bad.append("load_xml of the exported file: rc=%s same=%s" % (f.get("fload"), f.get("fsamelist")))
+    return "; ".join(bad) if bad else None
 
 
 def evaluate(case, clines, mlines):
@@ -79,7 +108,15 @@ def evaluate(case, clines, mlines):
     mx = [l for l in mlines if l.startswith("X ")]
     c_crashed = not cx or cx[-1] != "X ok"
     m_crashed = bool(mx) and mx[-1].startswith("X crash")
-    csteps, msteps = steps(clines), steps(mlines)
+    csteps_all, msteps = steps(clines), steps(mlines)
+    for xs in [c for c in csteps_all if c["kind"] == "xml"]:
+        n = int(xs["lines"][0].split()[1])
+        why = xml_ok(next((l for l in xs["lines"] if l.startswith("xml ")), None), n)
+        if why:
+            m = re.match(r"xml-e(\d)-i(\d)-", case)
+            key = "xml-roundtrip:%s-export-%s-import" % (("nolibxml", "libxml")[int(m.group(1))], ("nolibxml", "libxml")[int(m.group(2))]) if m else "xml-roundtrip:" + case
+            viol.append((key, "diff XML round trip of a %d-entry list (case %s): %s" % (n, case, why)))
+    csteps = [c for c in csteps_all if c["kind"] != "xml"]
     hypA = kv(next((l for l in mlines if l.startswith("hyp A ")), "hyp"))
     hypB = kv(next((l for l in mlines if l.startswith("hyp B ")), "hyp"))
     # total_memory is compared only when it is the sum of the local memories on both sides
@@ -151,10 +188,11 @@ def evaluate(case, clines, mlines):
                 if ap == "apply 0" and (ua != "unapply 0" or state(L, "P2") != stateA):
                     classify("apply REVERSE after apply gives '%s', state %s A" % (ua, "equal to" if state(L, "P2") == stateA else "different from"), "reverse")
                 xl = next((l for l in L if l.startswith("xml ")), None)
+                why = xml_ok(xl, n)
                 if xl is None:
                     classify("XML export/load of the diff did not return", "xml-crash")
-                elif not (xl.startswith("xml ok same=1 n=%d " % n) and xl.endswith("ref=" + G.hx('ref<&"1>.xml'))):
-                    classify("diff XML round trip: '%s'" % xl, "xml-roundtrip")
+                elif why:
+                    classify("diff XML round trip: " + why, "xml-roundtrip")
         else:
             hh = kv(next((l for l in ms["lines"] if l.startswith("hyph ")), "hyph"))
             flags = int(L[0].split()[1])
@@ -219,6 +257,14 @@ def check(run, replay=None):
                     if l == "end":
                         cases.append((cur[0][5:], cur))
                         cur = None
+        # XML round trip across the exporter's internal buffer boundary, 2 export x 2 import backends
+        rcp, outp, _, _, _, _ = run_script(exe, drv, "\n".join(G.xml_probe()) + "\n")
+        base = None
+        for l in outp.split("\n"):
+            if l.startswith("xml export=0"):
+                base = int(kv(l)["len"]) - 100
+        for xc in G.xml_cases(rng, base, run.tier):
+            cases.append((xc[0][5:], xc))
         topos = G.topo_lines(C.REPO, run.tier)
         rc, out, err, _, _, _ = run_script(exe, drv, G.probe_script(topos))
         tables = G.parse_tables(out)
@@ -254,7 +300,7 @@ def check(run, replay=None):
         viol, diff = evaluate(name, cl, ml)
         res = [l for l in cl if KEEP.match(l)]
         nontriv = any(l.startswith("D ") for l in res)
-        kind = "hand" if any(l.startswith("hand") for l in res) else "pair"
+        kind = "xml" if any(l.startswith("xmlhand") for l in cl) else ("hand" if any(l.startswith("hand") for l in res) else "pair")
         run.count("\n".join(res), nontrivial=nontriv, sample={"case": by_name.get(name, [])[:12], "impl": res[:6]}, kind=kind)
         for l in ml:
             if l.startswith("hyp A") or l.startswith("hypd") or l.startswith("hyph"):
